@@ -93,6 +93,24 @@ func diffSide(info *types.Info, fi *FuncInfo, o types.Object, depth int) int {
 							side = sd
 						}
 					}
+				} else if call, ok := ast.Unparen(rhs).(*ast.CallExpr); ok && isNewFuncCall(info, call) {
+					// x := helper(side, …) for a helper new to the rules (kept as a call): a part of the one side its
+					// arguments belong to
+					one := -1
+					for _, a := range call.Args {
+						if r, _ := selectorPath(info, a); r != nil && r != o {
+							if sd := diffSide(info, fi, r, depth+1); sd >= 0 {
+								if one >= 0 && one != sd {
+									one = -2
+								} else if one != -2 {
+									one = sd
+								}
+							}
+						}
+					}
+					if one >= 0 {
+						side = one
+					}
 				} else if r, _ := selectorPath(info, rhs); r != nil && r != o {
 					// alias of a part of one side: x := y.GetAfts()
 					if sd := diffSide(info, fi, r, depth+1); sd >= 0 {
@@ -588,6 +606,37 @@ func ruleReconcileWiring(c *Ctx) {
 						return strings.Join(p, ".")
 					}
 				}
+				// through a helper spliced in (`i, t, err := r.contents(ctx)`): the local the helper returns, and the
+				// one assignment `x, err = <side>.Get(ctx)` that gives it its value
+				cur := v
+				for hops := 0; hops < 4; hops++ {
+					found := ""
+					nAssign := 0
+					ast.Inspect(fi.Decl.Body, func(m ast.Node) bool {
+						as, ok := m.(*ast.AssignStmt)
+						if !ok || len(as.Rhs) != 1 || len(as.Lhs) < 1 || objOfIdent(info, as.Lhs[0]) != types.Object(cur) {
+							return true
+						}
+						if gc, ok := ast.Unparen(as.Rhs[0]).(*ast.CallExpr); ok {
+							nAssign++
+							if se, ok := ast.Unparen(gc.Fun).(*ast.SelectorExpr); ok && se.Sel.Name == "Get" {
+								if root, p := selectorPath(info, se.X); root != nil && frameArgRoot(info, fi.Decl, root) == recvObj(info, fi.Decl) {
+									found = strings.Join(p, ".")
+								}
+							}
+						}
+						return true
+					})
+					if found != "" && nAssign == 1 {
+						return found
+					}
+					def := soleDefinition(info, fi.Decl, cur)
+					nv, ok := objOfIdent(info, exprOrBad(def)).(*types.Var)
+					if !ok || nv == cur {
+						break
+					}
+					cur = nv
+				}
 				return "?"
 			}
 			a, b := side(call.Args[0]), side(call.Args[1])
@@ -645,4 +694,16 @@ func ruleReconcileWiring(c *Ctx) {
 		c.Sites++
 		c.check(len(bad) == 0, rule, mf.Name, "every bucket is merged from the same bucket", c.P.pos(mf.Decl.Pos()), strings.Join(t.fields, ", "), "merging operation sets drops or re-files a bucket: "+strings.Join(bad, ", "))
 	}
+}
+
+func isNewFuncCall(info *types.Info, call *ast.CallExpr) bool {
+	f, ok := calleeObj(info, call).(*types.Func)
+	return ok && isNewFunc(f)
+}
+
+func exprOrBad(e ast.Expr) ast.Expr {
+	if e == nil {
+		return &ast.BadExpr{}
+	}
+	return e
 }
